@@ -210,6 +210,13 @@ def probsPlain (o : Out) : List (List Rat) :=
     if o.reached.getD i false then normalizeRow (getRow o.temps i)
     else (getRow o.temps i).map fun _ => 0
 
+/-- `probs_` when `centering = True`: `normalize(np.exp(scale * temperatures))` with the unreached rows zeroed;
+    the exponential is a parameter (any positive function: `np.exp` is outside the rational model) -/
+def probsSoft (o : Out) (scale : Rat) (expf : Rat → Rat) : List (List Rat) :=
+  tab o.labels.length fun i =>
+    if o.reached.getD i false then normalizeRow ((getRow o.temps i).map fun x => expf (scale * x))
+    else (getRow o.temps i).map fun _ => 0
+
 end Diffusion
 
 /-! ### `check_n_neighbors` and top-k selection -/
